@@ -1,5 +1,5 @@
 (* C03 - Every go is answered by exactly one legal, well-formed bestmove (protocol logic).
-   Proved on the session model for every schedule (expiry index k, pick index) and every ordering
+   Proved on the session model for every schedule (expiry index k) and every ordering
    oracle returning elements of its input.  Legality of the generated moves themselves is C01;
    the runtime part (real threads) is exercised on the binary by the check. *)
 From Walleye Require Import Model.Uci Proofs.SessionProofs Proofs.RootProofs.
@@ -70,7 +70,7 @@ Theorem C03_position_then_go : forall zt osort,
                     abs (ss_board st') = apply P mv /\ pos_ok1 (ss_board st')).
 Proof. exact position_then_go. Qed.
 
-(* every go is answered: in a position with at least one move, for every expiry index, pick and ordering oracle that
+(* every go is answered: in a position with at least one move, for every expiry index and ordering oracle that
    keeps non-empty lists non-empty, a go step that leaves the session running has printed its info lines and then
    exactly one bestmove line - the search always hands a move back (an accepted evaluation's move, or, once the
    clock has expired, the first move of the ordering) *)
